@@ -4,7 +4,8 @@ Descriptor (plain JSON):
   {"vars": [names], "terms": [names], "start": name, "prods": [[head, [sym...]]...],
    "valmode": "V"|"str", "hash": {"N:<name>": int}|null, "hashmode": str,
    "ctor_sets": bool}
-Variable and terminal names are disjoint (a grammar has V and Sigma disjoint).
+Variable and terminal names are disjoint (a grammar has V and Sigma disjoint); their *values* may coincide for one
+variable / terminal pair ("alias").
 """
 from sim.values import V, key, assign_hashes, order_signature, HASH_MODES
 from models.cfg import Cfg
@@ -104,8 +105,10 @@ def gen_cfg(rng, max_vars=4, max_terms=3, max_prods=7, max_body=4, profile=None,
         mode, valmode = "plain", "mixed"
     names = ["N:" + x for x in sorted(set(vs + ts + [start, FOREIGN]))]
     hashes = assign_hashes(rng, names, mode)
+    # in part of the cases one variable carries the same *value* as a terminal (they stay two symbols of the grammar)
+    alias = {rng.pick(vs): rng.pick(ts)} if (ts and not strings_only and not reserved and rng.chance(0.05)) else None
     return {"vars": vs, "terms": ts, "start": start, "prods": prods, "valmode": valmode, "hash": hashes,
-            "hashmode": mode, "profile": profile, "ctor_sets": rng.chance(0.3),
+            "hashmode": mode, "profile": profile, "ctor_sets": rng.chance(0.3), "alias": alias,
             "words_as_terminals": rng.chance(0.4)}
 
 
@@ -218,6 +221,8 @@ def shrink_cfg(case):
         c.update(kw)
         return c
     ps = case["prods"]
+    if case.get("alias"):
+        yield mk(alias=None)
     for i in range(len(ps)):
         yield mk(prods=ps[:i] + ps[i + 1:])
     for i, (h, b) in enumerate(ps):
